@@ -69,7 +69,7 @@ func vpH_C18_secret() {
 	}
 	in := append(vpHeaderBytes(0, typ, seq, vpU8()&0xfe, sid, len(wire)), wire...)
 	conn := newVPConn(in)
-	s := &Server{loggerProvider: lg}
+	s := NewServer(lg, nil)
 	s.handle(newVPCtx(), newCrypter(secret, conn, false), HandlerFunc(func(resp Response, req Request) {
 		resp.Reply(NewAcctReply(SetAcctReplyStatus(AcctReplyStatusSuccess)))
 	}))
